@@ -2383,6 +2383,43 @@ fn run(st: &Shared, mode: Mode, tier: Tier) -> RunReport {
                 f
             })
             .collect();
+        // near-twins: the same program except for one constant that differs
+        // by the sign of a zero or by one unit in the last place.  Anything
+        // that recognises "the same tape as last time" (to skip work on
+        // recycled storage or in a kept evaluator) must tell them apart.
+        let mut fgs: Vec<FuncGen> = fgs;
+        if ch.odds("twin_function", 1, 4) {
+            let k = ch.choose("twin_of", fgs.len() as u32) as usize;
+            let mut t = FuncGen {
+                dag: fgs[k].dag.clone(),
+                outputs: fgs[k].outputs.clone(),
+                nvars: fgs[k].nvars,
+            };
+            let consts: Vec<usize> = t
+                .dag
+                .n
+                .iter()
+                .enumerate()
+                .filter(|(_, e)| matches!(e, crate::gen_::Ex::C(_)))
+                .map(|(i, _)| i)
+                .collect();
+            if !consts.is_empty() {
+                let i = consts[ch.choose("twin_const", consts.len() as u32) as usize];
+                if let crate::gen_::Ex::C(c) = t.dag.n[i] {
+                    let flip_zero = c == 0.0 || ch.flag("twin_make_zero");
+                    t.dag.n[i] = crate::gen_::Ex::C(if flip_zero {
+                        if c == 0.0 { -c } else { -0.0 }
+                    } else {
+                        f32::from_bits(c.to_bits() ^ 1)
+                    });
+                    if flip_zero && c != 0.0 {
+                        // the original gets the other zero
+                        fgs[k].dag.n[i] = crate::gen_::Ex::C(0.0);
+                    }
+                }
+                fgs.push(t);
+            }
+        }
         (backend, fgs)
     };
     match backend {
